@@ -454,9 +454,10 @@ func replay(path string) int {
 		fmt.Fprintln(os.Stderr, "no reproducer for", f.Property)
 		return 2
 	}
-	if r, err := checks.Runner(); err == nil {
+	if r, err := checks.Runner(); err == nil && f.Hist != nil {
 		r.Trace = os.Stdout
 	}
+	checks.STrace = os.Stdout
 	ok, err := c.Reproduce(&f)
 	if err != nil {
 		fmt.Fprintln(os.Stderr, "harness error:", err)
